@@ -45,7 +45,7 @@ struct seq_fn
         proj.add(0, T(0.75), v);     // second of two bins
         // two more distributions with several bins: call k goes to bin k % 3 resp. k % 2, so that every bin
         // accumulates its own subsequence next to its neighbours (separate compensation per bin)
-        proj.add(1, (T(k % 3) + T(0.5)) / T(3), v);
+        proj.add(1, (T(k % 3) + T(0.5)) / T(3) * T(0.7L), v);      // three bins on [0, 0.7]: the inverse width is no round number
         proj.add(2, (T(k % 2) + T(0.5)) / T(2), T(0.5), v);
         return v;
     }
@@ -66,7 +66,7 @@ static sums<T> run(std::function<T(sz)> const& value, sz n)
     s.calls_seen = counter;
     counter = 0;
     auto const r2 = hep::plain_iteration(hep::make_integrand<T>(seq_fn<T>{&value, &counter}, 1,
-        hep::make_dist_params<T>(2, T(0), T(1), "bin"), hep::make_dist_params<T>(3, T(0), T(1), "three"),
+        hep::make_dist_params<T>(2, T(0), T(1), "bin"), hep::make_dist_params<T>(3, T(0), T(0.7L), "three"),
         hep::distribution_parameters<T>(2, 1, T(0), T(1), T(0), T(1), "two")), n, g2);
     s.with_dist = r2.sum();
     // the first distribution has two bins of width 1/2; everything goes to the second one (the division by 2 is exact)
@@ -89,12 +89,15 @@ static void judge_more(report& r, sums<T> const& s, std::function<T(sz)> const& 
         ex[k % 3] += v; mg[k % 3] += v < 0 ? -v : v;
         ex[3 + k % 2] += v; mg[3 + k % 2] += v < 0 ? -v : v;
     }
+    // bin width of the three-bin distribution exactly as the library stores it
+    __float128 const width3 = static_cast<__float128>(hep::make_dist_params<T>(3, T(0), T(0.7L), "three").bin_size_x());
     for (sz b = 0; b != 5; ++b)
     {
-        __float128 const scale = b < 3 ? 3 : 2;
+        __float128 const scale = b < 3 ? 1 / width3 : 2;
         __float128 d = static_cast<__float128>(s.more[b]) - ex[b] * scale;
         if (d < 0) d = -d;
-        if (!(d <= 3 * static_cast<__float128>(std::numeric_limits<T>::epsilon()) * mg[b] * scale))
+        // (the division by the bin width is one more rounding: relative for normal results, one subnormal step otherwise)
+        if (!(d <= 3 * static_cast<__float128>(std::numeric_limits<T>::epsilon()) * mg[b] * scale + 2 * static_cast<__float128>(std::numeric_limits<T>::denorm_min())))
         {
             r.violate("accuracy-lost/bin-of-multi-bin-distribution", id, std::string(vf::type_name<T>()) + " " + desc + ": bin " + std::to_string(b < 3 ? b : b - 3) + " of distribution "
                 + (b < 3 ? "1" : "2") + " reports " + vf::dec(static_cast<long double>(s.more[b])) + ", exact " + vf::dec(static_cast<long double>(ex[b] * scale)) + ", error "
@@ -225,6 +228,8 @@ static void part_c(report& r, bool thorough)
         // the same shapes scaled to the bottom of the exponent range (compensations are subnormal there)
         {"tiny/one-large-then-small", [=](sz i) { T const sc = std::ldexp(T(1), std::numeric_limits<T>::min_exponent + 3); return (i == 0 ? T(1) : eps * T(0.75)) * sc; }},
         {"tiny/alternating", [=](sz i) { T const sc = std::ldexp(T(1), std::numeric_limits<T>::min_exponent + 3); return (i % 2 ? T(-1) : T(1)) * (T(1) + T(i % 7) * eps) * sc; }},
+        // a few values whose squares overflow (the sum of squares is lost, the sum must not be)
+        {"few-huge-values", [=](sz i) { return i % 1000 == 7 ? std::ldexp(T(1) + T(i % 3) * eps, std::numeric_limits<T>::max_exponent / 2 + 10) * (i % 2000 == 7 ? T(1) : T(-1)) : T(1) + T(i % 5) * eps; }},
         {"mixed-magnitudes", [=](sz i) { return std::ldexp(T(1) + T(vf::splitmix64(i) % 1024) * eps, int(vf::splitmix64(i + 77) % 40) - 20) * ((vf::splitmix64(i + 5) & 1) ? T(1) : T(-1)); }},
     };
     for (auto const& f : fams)
